@@ -67,6 +67,22 @@ def canon(x, depth=0):
     return ["repr", type(x).__name__, repr(x)[:200]]
 
 
+def _axis_names(ix):
+    return ["names", [canon(n) for n in ix.names]]
+
+
+def canon_arg(x):
+    """a CALLER'S OWN object (constructor argument) exactly as it is: `canon` (values bit for bit, dtypes, labels, order,
+    container type) PLUS the axis names of a frame / Series / Index, which `canon` leaves out for what the MATRIX reports"""
+    if isinstance(x, pd.DataFrame):
+        return ["argD", canon(x), _axis_names(x.index), _axis_names(x.columns)]
+    if isinstance(x, pd.Series):
+        return ["argS", canon(x), _axis_names(x.index)]
+    if isinstance(x, pd.Index):
+        return ["argI", canon(x), _axis_names(x)]
+    return ["arg", canon(x)]
+
+
 def digest(c):
     return hashlib.sha1(json.dumps(c, separators=(",", ":"), sort_keys=False, default=str).encode()).hexdigest()[:16]
 
@@ -163,6 +179,9 @@ class Subject:
 
     def __init__(self, dm, args, res=None):
         self.dm, self.args, self.res = dm, args, res
+        # "inputs never mutated" (filled in by build_subject): the caller's own objects as they were right BEFORE the
+        # constructor ran, and those the constructor / the evaluate() that produced the result left different
+        self.arg_before, self.ctor_changed = None, []
         d = dm.to_dict()  # not list(dm.criteria): iterating an _ACArray goes through its label lookup
         self.alts = d["alternatives"].tolist()
         self.crits = d["criteria"].tolist()
@@ -187,6 +206,12 @@ class Subject:
                 pairs = [(i, j) for i in range(m) for j in range(m) if i != j]
                 out.extend((a.name, p) for p in (pairs if max_pairs is None else pairs[:max_pairs]))
         return out
+
+    def arg_canon(self):
+        return {k: canon_arg(v) for k, v in self.args.items()}
+
+    def arg_snapshot(self):
+        return {k: digest(canon_arg(v)) for k, v in self.args.items()}
 
     def read(self, inst):
         name, args = inst
@@ -250,27 +275,92 @@ def build_subject(case):
     else:
         obj = np.array(list(d["objectives"]), dtype=object)
     alts, crits = list(d["alternatives"]), list(d["criteria"])
+    if d.get("argform") == "list":  # the documented "iterable" arguments as plain lists instead of arrays
+        obj, w = obj.tolist(), w.tolist()
     with quiet():
         if d["ctor"] == "df":
-            idx, cols = pd.Index(alts), pd.Index(crits)
-            df = pd.DataFrame(Mx, index=idx, columns=cols)
-            args = {"df": df, "df_base": Mx, "df_index": idx, "df_columns": cols, "objectives": obj, "weights": w}
+            df, args = _caller_frame(d, Mx, alts, crits)
+            args.update(objectives=obj, weights=w)
+            before = _arg_canon(args)
             dm = skc.DecisionMatrix(df, obj, w)
         elif d["ctor"] == "ndarray":
             args = {"matrix": Mx, "objectives": obj, "weights": w}
+            before = _arg_canon(args)
             dm = skc.DecisionMatrix(Mx, obj, w)
         else:
-            a_arr = np.array(alts, dtype=object if isinstance(alts[0], str) else None)
-            c_arr = np.array(crits, dtype=object if isinstance(crits[0], str) else None)
+            if d.get("argform") == "list":
+                a_arr, c_arr = list(alts), list(crits)
+            else:
+                a_arr = np.array(alts, dtype=object if isinstance(alts[0], str) else None)
+                c_arr = np.array(crits, dtype=object if isinstance(crits[0], str) else None)
             args = {"matrix": Mx, "objectives": obj, "weights": w, "alternatives": a_arr, "criteria": c_arr}
+            before = _arg_canon(args)
             dm = skc.mkdm(Mx, obj, weights=w, alternatives=a_arr, criteria=c_arr)
+        after_ctor = _arg_canon(args)
         res = None
         if case.get("res"):
             try:
                 res = M.build(case["res"]).evaluate(dm)
             except Exception:
                 res = None
-    return Subject(dm, args, res)
+        after_eval = _arg_canon(args)
+    s = Subject(dm, args, res)
+    s.arg_before = before
+    s.ctor_changed = _arg_diff(before, after_ctor, f"the constructor ({'mkdm' if d['ctor'] == 'mkdm' else 'DecisionMatrix'})") \
+        + _arg_diff(after_ctor, after_eval, "evaluate() of the decision maker on the new matrix")
+    return s
+
+
+def _arg_canon(args):
+    return {k: canon_arg(v) for k, v in args.items()}
+
+
+def _arg_diff(a, b, by):
+    return [{"arg": k, "by": by, "before": a[k], "after": b[k]} for k in sorted(a) if a[k] != b[k]]
+
+
+AXIS_NAME_POOL = ["vehicle", "feature", "Alternatives", "Criteria", "id", "name", "alt", "crit", "index", 0, 7]
+FRAME_MAKERS = ["index", "setattr", "rename_axis", "read_csv", "pivot"]
+
+
+def _caller_frame(d, Mx, alts, crits):
+    """the caller's own DataFrame (and the objects it was made of).  `d["axisnames"]` = {"index": name | None, "columns":
+    name | None} and `d["frame"]` say how the frame came about: Index objects built with a name (`index`, the default), a
+    name assigned afterwards (`df.index.name = ...`), `rename_axis`, a CSV file read back with `read_csv(index_col=0)`
+    (the index is named after the header cell), or a long table turned into a wide one by `pivot` (both axes named)"""
+    an = d.get("axisnames") or {}
+    iname, cname = an.get("index"), an.get("columns")
+    how = d.get("frame", "index")
+    if how == "read_csv":
+        import io
+
+        text = pd.DataFrame(Mx, index=pd.Index(alts, name=iname if iname is not None else "alt"),
+                            columns=pd.Index(crits)).to_csv()
+        df = pd.read_csv(io.StringIO(text), index_col=0, float_precision="round_trip")
+        if cname is not None:
+            df.columns.name = cname
+        if isinstance(df.index, pd.RangeIndex):  # evenly spaced integer labels: RangeIndex axes are outside the domain
+            df.index = pd.Index(np.array(df.index), name=df.index.name)
+        return df, {"df": df, "df_index": df.index, "df_columns": df.columns}
+    if how == "pivot":
+        i_, c_ = str(iname if iname is not None else "alt"), str(cname if cname is not None else "crit")
+        if c_ == i_:
+            c_ += "_c"
+        long = pd.DataFrame({i_: np.repeat(np.array(alts, dtype=object), len(crits)),
+                             c_: np.tile(np.array(crits, dtype=object), len(alts)), "_value": Mx.ravel()})
+        df = long.pivot(index=i_, columns=c_, values="_value").loc[alts, crits]  # pivot sorts the labels: restore the order
+        return df, {"df": df, "df_index": df.index, "df_columns": df.columns}
+    if how == "index":
+        idx, cols = pd.Index(alts, name=iname), pd.Index(crits, name=cname)
+        df = pd.DataFrame(Mx, index=idx, columns=cols)
+        return df, {"df": df, "df_base": Mx, "df_index": idx, "df_columns": cols}
+    idx, cols = pd.Index(alts), pd.Index(crits)
+    df = pd.DataFrame(Mx, index=idx, columns=cols)
+    if how == "setattr":
+        df.index.name, df.columns.name = iname, cname
+    else:
+        df = df.rename_axis(index=iname, columns=cname)
+    return df, {"df": df, "df_base": Mx, "df_index": df.index, "df_columns": df.columns}
 
 
 # ----------------------------------------------------------------------------- mutation channels
